@@ -40,6 +40,7 @@ namespace bloch::compiler {
        private:
         std::vector<Token> m_tokens;
         size_t m_current;
+        int m_expressionDepth = 0;  // nesting of the expression being parsed (bounded)
         // For multi-declarations (e.g. qubit a, b, c;), we parse the first
         // and stage the rest here, then flush them into the surrounding block.
         std::vector<std::unique_ptr<Statement>> m_extraStatements;
